@@ -24,7 +24,7 @@ Definition quote : chr := (34, 0).
 
 (** [read_block_string]: [p] = character count, [i] = what the [chars] iterator still holds;
     every iteration consumes at least one character, so [S (length i)] fuel suffices *)
-Fixpoint read_block (fuel : nat) (s : src) (p : Z) (i : src) (acc : src) : out src :=
+Fixpoint read_block_pre (fuel : nat) (s : src) (p : Z) (i : src) (acc : src) : out src :=
   match fuel with
   | O => NoFuel
   | S f =>
@@ -36,8 +36,8 @@ Fixpoint read_block (fuel : nat) (s : src) (p : Z) (i : src) (acc : src) : out s
             if is_q pn then
               c3 <- gq_copy3 s p ;;
               if c3 then Done (rev acc)                        (* three advances, break *)
-              else read_block f s (p + 1) r (c :: acc)
-            else read_block f s (p + 1) r (c :: acc)
+              else read_block_pre f s (p + 1) r (c :: acc)
+            else read_block_pre f s (p + 1) r (c :: acc)
           else if cp c =? 92 then
             (* advance(); if peek() and peek_next() are both a double quote: push three of them, advance x 3; else push the backslash *)
             match r with
@@ -45,12 +45,12 @@ Fixpoint read_block (fuel : nat) (s : src) (p : Z) (i : src) (acc : src) : out s
                 if cp q =? 34 then
                   pn <- gq_peek_next s (p + 1) ;;
                   if is_q pn
-                  then read_block f s (p + 1 + Z.of_nat (List.length (firstn 3 r))) (skipn 3 r) (quote :: quote :: quote :: acc)
-                  else read_block f s (p + 1) r (c :: acc)
-                else read_block f s (p + 1) r (c :: acc)
-            | [] => read_block f s (p + 1) r (c :: acc)
+                  then read_block_pre f s (p + 1 + Z.of_nat (List.length (firstn 3 r))) (skipn 3 r) (quote :: quote :: quote :: acc)
+                  else read_block_pre f s (p + 1) r (c :: acc)
+                else read_block_pre f s (p + 1) r (c :: acc)
+            | [] => read_block_pre f s (p + 1) r (c :: acc)
             end
-          else read_block f s (p + 1) r (c :: acc)
+          else read_block_pre f s (p + 1) r (c :: acc)
       end
   end.
 
@@ -77,7 +77,7 @@ Definition common_indent (ls : list src) : option Z :=
     else Some (match acc with Some ci => Z.min ci (indent_of l) | None => indent_of l end)) ls None.
 
 Definition newline : chr := (10, 4).
-Fixpoint dedent_rest (ci : option Z) (ls : list src) : out src :=
+Fixpoint dedent_rest_pre (ci : option Z) (ls : list src) : out src :=
   match ls with
   | [] => Done []
   | l :: r =>
@@ -88,39 +88,102 @@ Fixpoint dedent_rest (ci : option Z) (ls : list src) : out src :=
                else Done []
            | None => Done l
            end ;;
-      y <- dedent_rest ci r ;;
+      y <- dedent_rest_pre ci r ;;
       Done (newline :: x ++ y)
   end.
 Fixpoint drop_nl (l : src) : src :=
   match l with c :: r => if cp c =? 10 then drop_nl r else l | [] => [] end.
 Definition trim_nl (l : src) : src := rev (drop_nl (rev (drop_nl l))).      (* trim_matches('\n') *)
 
-Definition dedent (v : src) : out src :=
+Definition dedent_pre (v : src) : out src :=
   match split_lines v [] with
   | [] => Done []
   | first :: rest =>
-      y <- dedent_rest (common_indent rest) rest ;;
+      y <- dedent_rest_pre (common_indent rest) rest ;;
       Done (trim_nl (first ++ y))
   end.
 
 (** the values of the block-string tokens (class 11) of a token list, in order; token spans of
     the GraphQL lexer are character counts, the content starts after the opening three quotes *)
-Fixpoint block_values (s : src) (ts : list (Z * Z * Z)) : out (list (list Z)) :=
+Fixpoint block_values_pre (s : src) (ts : list (Z * Z * Z)) : out (list (list Z)) :=
   match ts with
   | [] => Done []
   | t :: r =>
       if fst (fst t) =? K_LSTR then
         let p := snd (fst t) + 3 in
         let i := skipn (Z.to_nat p) s in
-        v <- read_block (S (List.length i)) s p i [] ;;
-        d <- dedent v ;;
-        vs <- block_values s r ;;
+        v <- read_block_pre (S (List.length i)) s p i [] ;;
+        d <- dedent_pre v ;;
+        vs <- block_values_pre s r ;;
         Done (map cp d :: vs)
-      else block_values s r
+      else block_values_pre s r
   end.
 
-(** the GraphQL lexer including the computation of block-string values *)
+(** ** the code as it is now (after 9a1aff1): [peek_next] and the closing-quote test look ahead on a clone
+    of the character iterator; [dedent_block_string] uses [line.get(indent..)] and, where the offset is not
+    a character boundary, removes the line's own leading white space ([trim_start]) *)
+Definition q3 (i : src) : bool :=
+  match i with a :: b :: c :: _ => (cp a =? 34) && (cp b =? 34) && (cp c =? 34) | _ => false end.
+Fixpoint read_block (fuel : nat) (i : src) (acc : src) : out src :=
+  match fuel with
+  | O => NoFuel
+  | S f =>
+      match i with
+      | [] => Done (rev acc)
+      | c :: r =>
+          if cp c =? 34 then
+            if is_q (nth_error i 1) then
+              if q3 i then Done (rev acc) else read_block f r (c :: acc)
+            else read_block f r (c :: acc)
+          else if cp c =? 92 then
+            match r with
+            | q :: _ =>
+                if (cp q =? 34) && is_q (nth_error r 1)
+                then read_block f (skipn 3 r) (quote :: quote :: quote :: acc)
+                else read_block f r (c :: acc)
+            | [] => read_block f r (c :: acc)
+            end
+          else read_block f r (c :: acc)
+      end
+  end.
+Fixpoint drop_ws (l : src) : src :=
+  match l with c :: r => if is_wsf c then drop_ws r else l | [] => [] end.      (* trim_start *)
+Fixpoint dedent_rest (ci : option Z) (ls : list src) : src :=
+  match ls with
+  | [] => []
+  | l :: r =>
+      let x := match ci with
+               | Some n =>
+                   if n <? blen l
+                   then match str_from l n with Ok t => t | Panic => drop_ws l end      (* line.get(indent..) *)
+                   else []
+               | None => l
+               end in
+      newline :: x ++ dedent_rest ci r
+  end.
+Definition dedent (v : src) : src :=
+  match split_lines v [] with
+  | [] => []
+  | first :: rest => trim_nl (first ++ dedent_rest (common_indent rest) rest)
+  end.
+Fixpoint block_values (s : src) (ts : list (Z * Z * Z)) : out (list (list Z)) :=
+  match ts with
+  | [] => Done []
+  | t :: r =>
+      if fst (fst t) =? K_LSTR then
+        let i := skipn (Z.to_nat (snd (fst t) + 3)) s in
+        v <- read_block (S (List.length i)) i [] ;;
+        vs <- block_values s r ;;
+        Done (map cp (dedent v) :: vs)
+      else block_values s r
+  end.
 Definition lex_graphql_full (s : src) : out (list (Z * Z * Z) * list (list Z)) :=
   ts <- lex_graphql s ;;
   vs <- block_values s ts ;;
+  Done (ts, vs).
+
+(** the GraphQL lexer before 9a1aff1, including the computation of block-string values *)
+Definition lex_graphql_full_pre (s : src) : out (list (Z * Z * Z) * list (list Z)) :=
+  ts <- lex_graphql_pre s ;;
+  vs <- block_values_pre s ts ;;
   Done (ts, vs).
